@@ -1316,16 +1316,13 @@ def run_reflect(case, R):
 # public names that are neither called by the streams of this file nor mentioned in the program generator: why (prefix match, longest wins)
 NOT_IN_C02 = {
     'np_conserved.svd': 'C05 (factorization; invariants of the reduced form also here)',
-    'np_conserved.speigs': 'C05 (registered defect F05.6)', 'np_conserved.orthogonal_columns': 'C05',
     'np_conserved.eigvalsh': 'returns an ndarray', 'np_conserved.eigvals': 'returns an ndarray', 'np_conserved.norm': 'returns a number',
-    'np_conserved.to_iterable_arrays': 'returns its argument', 'np_conserved.detect_grid_outer_legcharge': 'C06 / grid_outer of the programs',
+    'np_conserved.to_iterable_arrays': 'returns its argument',
     'np_conserved.Array.save_hdf5': 'C17', 'np_conserved.Array.from_hdf5': 'C17', 'charges.LegCharge.save_hdf5': 'C17', 'charges.LegCharge.from_hdf5': 'C17',
     'charges.LegPipe.save_hdf5': 'C17', 'charges.LegPipe.from_hdf5': 'C17', 'charges.ChargeInfo.save_hdf5': 'C17', 'charges.ChargeInfo.from_hdf5': 'C17',
-    'charges.DipolarChargeInfo': 'dipolar charges are not generated (shift_charges needs them)',
-    'np_conserved.Array.shift_charges': 'needs a DipolarChargeInfo (not generated)', 'np_conserved.Array.shift_charges_horizontal': 'needs a DipolarChargeInfo (not generated)',
-    'charges.ChargeInfo.shift_charges': 'needs a DipolarChargeInfo (not generated)', 'charges.ChargeInfo.shift_charges_horizontal': 'needs a DipolarChargeInfo (not generated)',
     'charges.ChargeInfo': 'no tensor / leg returned (used by every case)',
-    'charges.LegPipe.map_incoming_flat': 'C06', 'charges.LegCharge.from_hdf5': 'C17',
+    'charges.LegCharge.from_hdf5': 'C17', 'charges.DipolarChargeInfo.save_hdf5': 'C17', 'charges.DipolarChargeInfo.from_hdf5': 'C17',
+    'charges.DipolarChargeInfo.test_sanity': 'no tensor / leg returned (called by every dipolar case)',
     'np_conserved.Array.sparse_stats': 'returns a string', 'np_conserved.Array.size': 'number', 'np_conserved.Array.stored_blocks': 'number', 'np_conserved.Array.ndim': 'number',
     'np_conserved.Array.has_label': 'bool', 'np_conserved.Array.get_leg_index': 'number', 'np_conserved.Array.get_leg_indices': 'numbers',
     'np_conserved.Array.is_completely_blocked': 'bool',
